@@ -546,7 +546,29 @@ def anchored(ctx, col):
         ("dendrite label -> a dendrite type", ["typee = types.basal_dendrite", "typee = types.apical_dendrite"], "dendrite"),
         ("the tree is built from the collected columns with one node per id", ["tree = Tree(next_id, source=ast.source, names=names, **ndata)",
                                                                           "return Tree(next_id, source=ast.source, names=names, **ndata)"], "tree"),
-    ], fixed=("ast", "names", "types", "Tree"))
+    ], fixed=("ast", "names", "types", "Tree"),
+        ordered=[("read", "inc", "the point's id is the counter's value before the increment (ids start at 0 and stay below the node count)"),
+                 ("pidcol", "childpid", "the parent recorded for a point is the id handed down, not the point's own id")])
+    # def-use: the parent id pushed for the children must have been re-bound to the point's id after the frame was popped
+    pushed = []
+    for n in own_nodes(conv):
+        if isinstance(n, ast.Call) and isinstance(n.func, ast.Attribute) and n.func.attr in ("extend", "append") and n.args:
+            for t in ast.walk(n.args[0]):
+                if isinstance(t, ast.Tuple) and len(t.elts) == 3 and isinstance(t.elts[1], ast.Name):
+                    pushed.append((n, t.elts[1].id))
+    for n, nm in pushed:
+        unpack = [a for a in own_nodes(conv) if isinstance(a, ast.Assign) and isinstance(a.targets[0], ast.Tuple) and
+                  any(isinstance(e, ast.Name) and e.id == nm for e in a.targets[0].elts) and isinstance(a.value, ast.Call) and
+                  isinstance(a.value.func, ast.Attribute) and a.value.func.attr == "pop"]
+        rebind = [a for a in own_nodes(conv) if isinstance(a, (ast.Assign, ast.AugAssign)) and a not in unpack and
+                  any(isinstance(e, ast.Name) and e.id == nm and isinstance(e.ctx, ast.Store) for e in ast.walk(a))]
+        if unpack and not rebind:
+            col.bad("R-COUNTER", conv.qualname, conv.loc(n), "children of a point receive that point's id as parent",
+                    f"`{norm_src(n)[:80]}` pushes `{nm}` for the children, and `{nm}` is only ever bound by unpacking the popped frame: every frame carries the "
+                    f"parent id of the first frame, so all points are recorded as children of the document root marker", stmt="childpid-defuse", definite=True)
+        elif unpack:
+            col.ok("R-COUNTER", conv.qualname, conv.loc(n), "the parent id pushed for the children is re-bound after the frame is popped",
+                   f"{len(rebind)} re-binding(s) of `{nm}`", stmt="childpid-defuse")
     col.text_group("R-ORDER", conv.qualname, conv, [
         ("children are pushed in reverse so that the first child is popped first (document order)",
          ["stack.extend(((n, pid, typee) for n in reversed(root.children)))"], "order"),
